@@ -109,6 +109,17 @@ def call_api(call, clock=None):
             kw[k] = call[k]
     st = settings_from(call.get("settings"))
     with frozen_clock(clock):
+        if call.get("local_zone") and clock is not None:
+            # module-level constants computed from the local offset at import: as if the process had started at the frozen instant
+            import dateparser.timezone_parser as _TZ
+            if hasattr(_TZ, "get_local_tz_offset"):
+                try:
+                    new = _TZ.get_local_tz_offset()
+                    for mod in list(sys.modules.values()):
+                        if getattr(mod, "__name__", "").split(".")[0] == "dateparser" and hasattr(mod, "local_tz_offset"):
+                            mod.local_tz_offset = new
+                except Exception:  # noqa
+                    pass
         try:
             parser = DateDataParser(settings=st or None, **kw)
             dd = parser.get_date_data(call["string"], call.get("date_formats"))
